@@ -11,19 +11,32 @@ Definition sid_ltb a b := match sid_cmp a b with Lt => true | _ => false end.
 Definition sid_leb a b := match sid_cmp a b with Gt => false | _ => true end.
 Definition sid_eqb a b := match sid_cmp a b with Eq => true | _ => false end.
 
-(** one pending entry of a consumer group (consumer_groups.rs PendingEntry) *)
+(** one pending entry of a consumer group (consumer_groups.rs PendingEntry):
+    owner, last_delivery (ms on the model clock), delivery_count *)
 Record pending := { p_id : sid; p_consumer : bytes; p_time : Z; p_count : Z }.
-Record consumer := { c_name : bytes; c_pending : Z; c_seen : Z }.
+(** ConsumerGroup + its PendingEntryList.  The pending set is kept four times by the
+    code: [g_by_id] (BTreeMap, sorted by id), [g_by_consumer] (HashMap name -> Vec of ids,
+    in push order), the per-consumer [pending_count] of [g_consumers] and the counter
+    [g_total]; [g_ncons] is the consumer_count counter, [g_min]/[g_max] the cached bounds.
+    The start id given to XGROUP CREATE initialises the cursor (repair 542e5a3). *)
 Record group := {
-  g_last : sid;                          (* last_delivered_id *)
-  g_by_id : list pending;                (* PendingEntryList.entries_by_id (sorted by id) *)
+  g_last : sid;                             (* last_delivered_id *)
+  g_by_id : list pending;                   (* PendingEntryList.entries_by_id *)
   g_by_consumer : list (bytes * list sid);  (* entries_by_consumer *)
-  g_consumers : list consumer;
-  g_total : Z                            (* total_pending counter *)
+  g_consumers : list (bytes * Z);           (* consumers: name -> pending_count *)
+  g_ncons : Z;                              (* consumer_count *)
+  g_total : Z;                              (* total_pending *)
+  g_min : option sid;                       (* min_pending_id *)
+  g_max : option sid                        (* max_pending_id *)
 }.
+(** Stream: StreamData.entries (sorted Vec; fields = HashMap, kept sorted by field name),
+    StreamData.last_id, the atomics last_id_millis / last_id_seq / length, the groups *)
 Record stream := {
-  s_entries : list (sid * list (bytes * bytes));  (* sorted by id; fields as written *)
-  s_last : sid;                                   (* last_id *)
+  s_entries : list (sid * list (bytes * bytes));
+  s_last : sid;
+  s_ams : Z;
+  s_aseq : Z;
+  s_len : Z;
   s_groups : list (bytes * group)
 }.
 
